@@ -363,9 +363,12 @@ func (ru *c04Run) syncOnce(front *Front, head cid.Cid, withCtxCancel bool) c04Ob
 					break wait
 				case <-time.After(500 * time.Microsecond):
 				}
-				if tl.count("watch.recv") > recvBefore && tl.count("watch.recv") == tl.count("watch.swap.spawn")+tl.count("watch.swap.replaced") &&
-					tl.count("watch.swap.spawn") == tl.count("async.enter") && tl.count("async.enter") == tl.count("async.exit") &&
-					tl.count("event.emit.begin") == tl.count("event.emit.end") && tl.count("dist.forward") == tl.count("event.emit.end") {
+				// (one snapshot of the counters: a condition over counters read one after the other can come out true
+				// although it never held)
+				n, _ := tl.snapshot()
+				if n["watch.recv"] > recvBefore && n["watch.recv"] == n["watch.swap.spawn"]+n["watch.swap.replaced"] &&
+					n["watch.swap.spawn"] == n["async.enter"] && n["async.enter"] == n["async.exit"] &&
+					n["event.emit.begin"] == n["event.emit.end"] && n["dist.forward"] == n["event.emit.end"] {
 					// the distributor's send to the listener queue follows its tap: if it has forwarded a notification
 					// since this announcement was made, that notification is on its way to the listener, however busy
 					// the machine is; otherwise there is none to wait for
@@ -815,14 +818,15 @@ func c04Unusable(c *vf.Ctx) {
 			deadline := time.Now().Add(60 * time.Second)
 			quiet := false
 			for time.Now().Before(deadline) {
-				if tl.count("watch.recv") == recvBefore {
+				n, _ := tl.snapshot() // (one snapshot: see syncOnce)
+				if n["watch.recv"] == recvBefore {
 					// (an announcement of a CID the receiver has seen and not un-cached is dropped before the watcher)
 					if time.Now().After(deadline.Add(-58 * time.Second)) {
 						break
 					}
-				} else if tl.count("watch.recv") == tl.count("watch.swap.spawn")+tl.count("watch.swap.replaced") &&
-					tl.count("watch.swap.spawn") == tl.count("async.enter") && tl.count("async.enter") == tl.count("async.exit") &&
-					tl.count("event.emit.begin") == tl.count("event.emit.end") {
+				} else if n["watch.recv"] == n["watch.swap.spawn"]+n["watch.swap.replaced"] &&
+					n["watch.swap.spawn"] == n["async.enter"] && n["async.enter"] == n["async.exit"] &&
+					n["event.emit.begin"] == n["event.emit.end"] {
 					quiet = true
 					break
 				}
